@@ -86,6 +86,11 @@ class Canon(ast.NodeTransformer):
         if len(n.ops) != 1 or self._has_walrus(n):
             return n
         op, l, r = n.ops[0], n.left, n.comparators[0]
+        # x in {"a", "b"} / x in ["a", "b"]  ->  x in ("a", "b")    (membership in a literal of constants: the container kind and
+        # the order of its elements do not matter)
+        if isinstance(op, ast.In | ast.NotIn) and isinstance(r, ast.Set | ast.List) and r.elts and all(isinstance(e, ast.Constant) and isinstance(e.value, str | int | bytes) and not isinstance(e.value, bool) for e in r.elts) and len({type(e.value) for e in r.elts}) == 1:
+            n.comparators = [ast.copy_location(ast.Tuple(elts=list(r.elts), ctx=ast.Load()), r)]
+            return n
         if type(op) in self.FLIP:
             new = ast.Compare(left=r, ops=[self.FLIP[type(op)]()], comparators=[l])
             return ast.copy_location(new, n)
@@ -153,6 +158,45 @@ class Canon(ast.NodeTransformer):
             t = n.value
             new = ast.If(test=t.test, body=[ast.copy_location(ast.Return(value=t.body), n)], orelse=[ast.copy_location(ast.Return(value=t.orelse), n)])
             return ast.copy_location(new, n)
+        return n
+
+    def visit_Call(self, n):
+        self.generic_visit(n)
+        # reversed(range(N)) -> range(N - 1, -1, -1) ;  reversed(range(A, B)) -> range(B - 1, A - 1, -1)   (unit step only)
+        if isinstance(n.func, ast.Name) and n.func.id == "reversed" and len(n.args) == 1 and not n.keywords:
+            r = n.args[0]
+            if isinstance(r, ast.Call) and isinstance(r.func, ast.Name) and r.func.id == "range" and not r.keywords and 1 <= len(r.args) <= 2 and not any(isinstance(a, ast.Starred) for a in r.args):
+                lo, hi = (ast.Constant(0), r.args[0]) if len(r.args) == 1 else r.args
+
+                def minus1(e):
+                    if isinstance(e, ast.Constant) and isinstance(e.value, int) and not isinstance(e.value, bool):
+                        return ast.Constant(e.value - 1) if e.value - 1 >= 0 else ast.UnaryOp(op=ast.USub(), operand=ast.Constant(1 - e.value))
+                    if isinstance(e, ast.BinOp) and isinstance(e.op, ast.Add) and isinstance(e.right, ast.Constant) and e.right.value == 1:
+                        return e.left
+                    if isinstance(e, ast.BinOp) and isinstance(e.op, ast.Add) and isinstance(e.left, ast.Constant) and e.left.value == 1:
+                        return e.right
+                    return ast.BinOp(left=e, op=ast.Sub(), right=ast.Constant(1))
+
+                new = ast.Call(func=ast.Name(id="range", ctx=ast.Load()), args=[minus1(hi), minus1(lo), ast.UnaryOp(op=ast.USub(), operand=ast.Constant(1))], keywords=[])
+                return ast.fix_missing_locations(ast.copy_location(new, n))
+        # "lit{}lit{}".format(a, b)  ->  f"lit{a}lit{b}"      (plain positional fields only: same text by definition of format())
+        if isinstance(n.func, ast.Attribute) and n.func.attr == "format" and isinstance(n.func.value, ast.Constant) and isinstance(n.func.value.value, str) and not n.keywords and not any(isinstance(a, ast.Starred) for a in n.args):
+            tmpl = n.func.value.value
+            import string as _string
+
+            try:
+                parts = list(_string.Formatter().parse(tmpl))
+            except ValueError:
+                return n
+            if all(fld in (None, "") and (spec in (None, "")) and conv is None for _, fld, spec, conv in parts) and sum(1 for _, fld, _, _ in parts if fld == "") == len(n.args):
+                vals, k = [], 0
+                for lit, fld, _spec, _conv in parts:
+                    if lit:
+                        vals.append(ast.Constant(lit))
+                    if fld == "":
+                        vals.append(ast.FormattedValue(value=n.args[k], conversion=-1, format_spec=None))
+                        k += 1
+                return ast.fix_missing_locations(ast.copy_location(ast.JoinedStr(values=vals), n))
         return n
 
     def visit_IfExp(self, n):
